@@ -51,7 +51,7 @@ vars == <<doc, ord, out>>
 (***************************************************************************)
 \* every name and attribute key the generated documents use, in Go's string order; a document carries its own
 \* order (d.order): documents abstracted from files (harness: vh sdl abstract) bring the order of their own names
-NameUniverse == <<"api", "arch", "class", "db", "east", "large", "north", "region", "small", "tier", "web", "west", "zone">>
+NameUniverse == <<"api", "arch", "class", "db", "east", "large", "north", "persistent", "region", "small", "tier", "web", "west", "zone">>
 Rank(d, n) == IF \E i \in 1..Len(d.order) : d.order[i] = n THEN CHOOSE i \in 1..Len(d.order) : d.order[i] = n ELSE 0
 SortedNames(d, S) == SelectSeq(d.order, LAMBDA n : n \in S)
 SumSeq(s) == LET F[i \in 0..Len(s)] == IF i = 0 THEN 0 ELSE F[i - 1] + s[i] IN F[Len(s)]
@@ -307,9 +307,15 @@ CpuAttrs(c) == IF c.cpuArch = "" THEN <<>> ELSE << <<"arch", c.cpuArch>> >>
 SortAttrs(d, as) == SortSeq(as, LAMBDA a, b : Rank(d, a[1]) < Rank(d, b[1]))
 Units(d, c) == [cpu |-> CpuMilli(c.cpu), cpuAttrs |-> CpuAttrs(c), mem |-> Bytes(c.mem), storage |-> Bytes(c.storage),
                 storageAttrs |-> SortAttrs(d, c.storageAttrs)]        \* attributes are a mapping: sorted by key
+\* the units as one run derives them: attribute mappings (storage attributes of the compute profile) are sorted by key;
+\* a translation that walks them as the document happens to list them (o.attrs: "fwd" as written, "rev" reversed)
+\* makes the groups, the manifest and the version depend on the key order
+UnitsRun(d, c, o) ==
+  IF Walk = "sorted" THEN Units(d, c)
+  ELSE [Units(d, c) EXCEPT !.storageAttrs = IF o.attrs = "fwd" THEN c.storageAttrs ELSE Reverse(c.storageAttrs)]
 
-GroupResource(d, x) ==
-  LET c == Prof(d, x.profile) pr == Pricing(d, x.placement, x.profile) u == Units(d, c) IN
+GroupResource(d, x, o) ==
+  LET c == Prof(d, x.profile) pr == Pricing(d, x.placement, x.profile) u == UnitsRun(d, c, o) IN
   [cpu |-> u.cpu, cpuAttrs |-> u.cpuAttrs, mem |-> u.mem, storage |-> u.storage, storageAttrs |-> u.storageAttrs,
    count |-> x.count, price |-> [denom |-> pr.denom, amount |-> pr.amount],
    endpoints |-> EndpointsOf(Svc(d, x.service))]
@@ -324,10 +330,10 @@ Groups(d, o) ==
           attrs     |-> SortAttrs(d, Place(d, p).attrs),
           allOf     |-> Place(d, p).allOf,
           anyOf     |-> Place(d, p).anyOf,
-          resources |-> [ri \in 1..Len(svcs) |-> GroupResource(d, Dep(d, svcs[ri], p))] ]]
+          resources |-> [ri \in 1..Len(svcs) |-> GroupResource(d, Dep(d, svcs[ri], p), o)] ]]
 
-ManifestService(d, x) ==
-  LET svc == Svc(d, x.service) u == Units(d, Prof(d, x.profile)) IN
+ManifestService(d, x, o) ==
+  LET svc == Svc(d, x.service) u == UnitsRun(d, Prof(d, x.profile), o) IN
   [ name    |-> svc.name,
     image   |-> svc.image,
     command |-> IF Impl = "asfound" THEN <<>> ELSE svc.command,
@@ -342,7 +348,7 @@ Manifest(d, o) ==
   [gi \in 1..Len(places) |->
      LET p == places[gi]
          svcs == SelectSeq(WalkSeq(d, DeployedSvcs(d), o.svc), LAMBDA s : HasDep(d, s, p))
-     IN [ name |-> p, services |-> [si \in 1..Len(svcs) |-> ManifestService(d, Dep(d, svcs[si], p))] ]]
+     IN [ name |-> p, services |-> [si \in 1..Len(svcs) |-> ManifestService(d, Dep(d, svcs[si], p), o)] ]]
 
 (***************************************************************************)
 (* Which documents are valid (sdl.Read accepts them): references resolve   *)
@@ -506,8 +512,8 @@ ManifestMatch(m, g) ==
 (* The machine.                                                            *)
 (***************************************************************************)
 Perms(s) == {p \in [1..Len(s) -> Range(s)] : \A i, j \in 1..Len(s) : i # j => p[i] # p[j]}
-Orders(d) == [svc : Perms(SortedNames(d, SvcNames(d))), place : Perms(SortedNames(d, {d.placement[i].name : i \in 1..Len(d.placement)}))]
-CanonOrder(d) == [svc |-> SortedNames(d, SvcNames(d)), place |-> SortedNames(d, {d.placement[i].name : i \in 1..Len(d.placement)})]
+Orders(d) == [svc : Perms(SortedNames(d, SvcNames(d))), place : Perms(SortedNames(d, {d.placement[i].name : i \in 1..Len(d.placement)})), attrs : {"fwd", "rev"}]
+CanonOrder(d) == [svc |-> SortedNames(d, SvcNames(d)), place |-> SortedNames(d, {d.placement[i].name : i \in 1..Len(d.placement)}), attrs |-> "fwd"]
 
 Init == /\ \E i \in 1..Len(Slices) : doc \in DocsFor(Slices[i])
         /\ ord = CanonOrder(doc) /\ out = NoOut
@@ -522,6 +528,8 @@ Reorder ==
   /\ out.state # "none"
   /\ \/ \E i \in 1..(Len(ord.svc) - 1) : ord' = [ord EXCEPT !.svc = SwapAt(ord.svc, i)]
      \/ \E i \in 1..(Len(ord.place) - 1) : ord' = [ord EXCEPT !.place = SwapAt(ord.place, i)]
+     \/ /\ \E c \in Range(doc.compute) : Len(c.storageAttrs) > 1          \* keys of a nested attribute mapping
+        /\ ord' = [ord EXCEPT !.attrs = IF ord.attrs = "fwd" THEN "rev" ELSE "fwd"]
   /\ UNCHANGED <<doc, out>>
 
 Next == Run \/ Reorder
